@@ -262,6 +262,12 @@ impl RefModel {
         let sets: Vec<_> = names.iter().filter_map(|n| self.tag(n)).map(|t| &t.set).collect();
         (0..self.files.len()).filter(|i| sets.iter().any(|s| s.contains(i))).collect()
     }
+    /// download: does every entry agree with the configured checksum switch and flag size?
+    /// (then `build` must succeed, else it must be refused)
+    fn download_build_ok(&self) -> bool {
+        let fs = if self.version >= 2 { self.flag_size as usize } else { 0 };
+        self.files.iter().all(|f| f.cks.is_some() == self.has_cks && match &f.flags { None => fs == 0, Some(x) => fs > 0 && x.len() == fs })
+    }
     fn eff(&self, p: i8) -> i8 {
         if self.version == 3 {
             (i16::from(p) - i16::from(self.base)).clamp(-128, 127) as i8
@@ -419,12 +425,22 @@ fn fail(s: &mut Session, c: &Ctx, sig: &str, msg: String) {
     // once a live tag name was added twice, names no longer identify tags: every check that goes
     // through a name is reported under the one recorded signature; checks that do not depend on
     // tag identity keep their own.
-    const KEEP: [&str; 22] = ["mask-len", "reparse", "u40", "prio-roundtrip", "prio-filter", "file-size", "header", "mask-combine", "file-count", "build-fails",
+    const KEEP: [&str; 23] = ["mask-len", "reparse", "u40", "prio-roundtrip", "prio-filter", "file-size", "header", "mask-combine", "file-count", "build-fails",
         "size-total", "size-entries", "size-build-fails", "size-build-accepts", "utf8-accept", "utf8-reject", "utf8-def", "size-tag-set", "size-total-u64-wrap",
-        "file-attrs", "prio-eff", "frommanifest-identity"];
+        "file-attrs", "prio-eff", "frommanifest-identity", "build-accepts"];
     const _: () = ();
     let sig = if c.rf.dup && !KEEP.contains(&sig) { "tag-set-dupname" } else { sig };
     s.oracle_fail(sig, &msg, &c.lines);
+}
+
+/// `from_manifest` + `build` with no editing call in between must serialise to the source bytes
+fn identity_diff(src: &[u8], got: &[u8]) -> Option<String> {
+    if src == got {
+        return None;
+    }
+    let off = src.iter().zip(got).position(|(a, b)| a != b).unwrap_or(src.len().min(got.len()));
+    Some(format!("from_manifest + build without any edit does not reproduce the source manifest: {} bytes -> {} bytes, first difference at byte {off} ({} -> {})",
+        src.len(), got.len(), src.get(off).map_or("end".to_string(), |b| format!("{b:02x}")), got.get(off).map_or("end".to_string(), |b| format!("{b:02x}"))))
 }
 
 fn mask_line(name: &str, typ: u16, mask: &[u8]) -> String {
@@ -862,13 +878,7 @@ fn exec_inner(s: &mut Session, c: &mut Ctx, toks: &[&str]) -> Option<String> {
                             _ => return None,
                         }
                         let bytes = m.build().ok()?;
-                        if rest.is_empty() {
-                            if let Some(src) = &c.fm_bytes {
-                                if *src != bytes {
-                                    fail(s, c, "frommanifest-identity", format!("from_manifest + build without any edit serialises to {} but the source manifest was {}", hex(&bytes), hex(src)));
-                                }
-                            }
-                        }
+                        let ident = if rest.is_empty() { c.fm_bytes.as_ref().and_then(|src| identity_diff(src, &bytes)) } else { None };
                         c.bytes = bytes.clone();
                         c.dm = None;
                         c.im = InstallManifest::parse(&bytes).ok();
@@ -902,6 +912,9 @@ fn exec_inner(s: &mut Session, c: &mut Ctx, toks: &[&str]) -> Option<String> {
                                 c.rf_built = Some(rb);
                             }
                         }
+                        if let Some(msg) = ident {
+                            fail(s, c, "frommanifest-identity", msg);
+                        }
                         hex(&bytes)
                     }
                 }
@@ -913,8 +926,14 @@ fn exec_inner(s: &mut Session, c: &mut Ctx, toks: &[&str]) -> Option<String> {
                         let r = derr(&e);
                         if r == "err:mask-size" {
                             fail(s, c, "mask-len", format!("download build failed: {e}"));
+                        } else if c.rf.download_build_ok() {
+                            fail(s, c, "build-fails", format!("download build failed ({e}) although every entry agrees with the configured checksum switch {} and flag size {} (version {})", c.rf.has_cks, c.rf.flag_size, c.rf.version));
                         }
                         r
+                    }
+                    Ok(_) if !c.rf.download_build_ok() => {
+                        fail(s, c, "build-accepts", format!("download build accepted entries that disagree with the configured checksum switch {} / flag size {}", c.rf.has_cks, c.rf.flag_size));
+                        "ok-unexpected".into()
                     }
                     Ok(m) => match m.build() {
                         Err(e) => {
@@ -922,11 +941,7 @@ fn exec_inner(s: &mut Session, c: &mut Ctx, toks: &[&str]) -> Option<String> {
                             derr(&e)
                         }
                         Ok(bytes) => {
-                            if let Some(src) = &c.fm_bytes {
-                                if *src != bytes {
-                                    fail(s, c, "frommanifest-identity", format!("from_manifest + build without any edit serialises to {} but the source manifest was {}", hex(&bytes), hex(src)));
-                                }
-                            }
+                            let ident = c.fm_bytes.as_ref().and_then(|src| identity_diff(src, &bytes));
                             c.bytes = bytes.clone();
                             c.im = None;
                             c.dm = DownloadManifest::parse(&bytes).ok();
@@ -965,6 +980,9 @@ fn exec_inner(s: &mut Session, c: &mut Ctx, toks: &[&str]) -> Option<String> {
                                     c.built_ok = true;
                                     c.rf_built = Some(c.rf.clone());
                                 }
+                            }
+                            if let Some(msg) = ident {
+                                fail(s, c, "frommanifest-identity", msg);
                             }
                             hex(&bytes)
                         }
@@ -2197,6 +2215,17 @@ fn main() {
                     for &cks in ckss {
                         let n = if b != 0 && idx % 3 == 0 { 9 } else { ns[idx % ns.len()] };
                         g.mutator_download(v, cks, fs, b, n, idx % 5);
+                        idx += 1;
+                    }
+                }
+            }
+        }
+        // manifests without entries: the header is the only place a switch / size / base lives
+        for v in 1..=3u64 {
+            for cks in [false, true] {
+                for fs in (if v == 1 { vec![0u8] } else { vec![0u8, 2, 4] }) {
+                    for b in (if v == 3 { vec![0i64, -10, 7] } else { vec![0i64] }) {
+                        g.mutator_download(v, cks, fs, b, 0, idx % 5);
                         idx += 1;
                     }
                 }
